@@ -60,9 +60,12 @@ fn fp_of(v: &Value, conc: &[[u8; 32]]) -> Option<Fingerprint> {
     Some(Fingerprint { blake3: conc[d - 1], ftype: t })
 }
 
-fn path_name(i: usize) -> PathBuf {
-    // names whose PathBuf order equals the numeric order of the spec's path ids
-    PathBuf::from(["a/x", "a/y", "b", "c"][i])
+// name sets whose PathBuf (component-wise) order equals the numeric order of the spec's path ids; in all but the first
+// the BYTE order of the rendered strings is a different one ('-', '.', ' ', '+' sort before '/')
+const NAME_SETS: [[&str; 4]; 4] = [["a/x", "a/y", "b", "c"], ["d/x", "d-old/y", "d.txt", "e"], ["src/main", "src-old", "src.bak", "t"], ["a/z", "a b/c", "a+b", "b"]];
+
+fn path_name_in(set: usize, i: usize) -> PathBuf {
+    PathBuf::from(NAME_SETS[set % NAME_SETS.len()][i])
 }
 
 fn cmd_reconcile_cases(args: &[String]) {
@@ -80,18 +83,22 @@ fn cmd_reconcile_cases(args: &[String]) {
         for (ki, conc) in concs.iter().enumerate() {
             let (mut a, mut b, mut e) = (FpMap::new(), FpMap::new(), FpMap::new());
             for p in 0..n {
-                if let Some(f) = fp_of(&c["a"][p], conc) { a.insert(path_name(p), f); }
-                if let Some(f) = fp_of(&c["b"][p], conc) { b.insert(path_name(p), f); }
-                if let Some(f) = fp_of(&c["e"][p], conc) { e.insert(path_name(p), f); }
+                if let Some(f) = fp_of(&c["a"][p], conc) { a.insert(path_name_in(ci + ki, p), f); }
+                if let Some(f) = fp_of(&c["b"][p], conc) { b.insert(path_name_in(ci + ki, p), f); }
+                if let Some(f) = fp_of(&c["e"][p], conc) { e.insert(path_name_in(ci + ki, p), f); }
             }
             // whole-tree function
             let r = std::panic::catch_unwind(|| reconcile(&a, &b, &e, trust));
             evals += 1;
             let got: Vec<(usize, String)> = match &r {
-                Ok(v) => v.iter().map(|(p, act)| ((0..4).find(|i| &path_name(*i) == p).unwrap(), act_name(*act).to_string())).collect(),
+                Ok(v) => v.iter().map(|(p, act)| ((0..4).find(|i| &path_name_in(ci + ki, *i) == p).unwrap_or(98), act_name(*act).to_string())).collect(),
                 Err(_) => vec![(99, "PANIC".into())],
             };
-            if got != want {
+            // the property fixes WHICH decisions are returned (one per path of the union), not their order
+            let (mut gs, mut ws) = (got.clone(), want.clone());
+            gs.sort();
+            ws.sort();
+            if gs != ws {
                 mism += 1;
                 out.write(&json!({"kind":"tree","case":ci,"conc":ki,"input":c,"got":got,"want":want}));
             }
